@@ -2,6 +2,7 @@
 use std::io::{BufRead, Write};
 use std::panic::{catch_unwind, AssertUnwindSafe};
 
+mod c06;
 mod conn;
 mod parse;
 mod util;
@@ -11,6 +12,9 @@ fn dispatch(rt: &tokio::runtime::Runtime, name: &str, args: &[&str]) -> String {
         return r;
     }
     if let Some(r) = conn::dispatch(rt, name, args) {
+        return r;
+    }
+    if let Some(r) = c06::dispatch(rt, name, args) {
         return r;
     }
     format!("NOHANDLER:{}", name)
